@@ -1562,3 +1562,31 @@ Proof.
   replace (List.length (v_count v)) with (List.length (v_offset v)) by lia. rewrite vadd_zeros.
   rewrite box_ids by assumption. reflexivity.
 Qed.
+
+(** * [axis_ok] for the other dimension kinds *)
+
+(** integer axes (set, data frame) and tick axes meet [axis_ok] *)
+Lemma n_count_bound : forall k, 0 <= k <= AXIS_MAX + 1 -> exists N, n_count k = Some N /\ 0 < N <= AXIS_MAX + 1.
+Proof. intros k Hk. unfold n_count. destruct (k =? 0) eqn:E; eexists; (split; [reflexivity|]); unfold AXIS_MAX in *; lia. Qed.
+
+Theorem int_axis_ok : forall d, (exists l, d = DSet l /\ zlen l <= AXIS_MAX + 1) \/ (exists r, d = DFrame r /\ 0 <= r <= AXIS_MAX + 1) -> axis_ok d.
+Proof.
+  intros d Hd.
+  assert (H : dim_x d = x_int /\ 0 < dim_N d <= AXIS_MAX + 1).
+  { destruct Hd as [(l & -> & Hl) | (r & -> & Hr)]; (split; [reflexivity|]); unfold dim_N; cbn [dim_n].
+    - destruct (n_count_bound (zlen l)) as (N & -> & HN); [unfold zlen in *; lia | exact HN].
+    - destruct (n_count_bound r Hr) as (N & -> & HN). exact HN. }
+  destruct H as [Ex HN]. unfold AXIS_MAX in HN.
+  constructor; rewrite ?Ex; unfold x_int.
+  - intros i Hi. apply ofZ_exact. lia.
+  - intros i j Hij Hj. destruct (ofZ_exact i ltac:(lia)) as [-> _]. destruct (ofZ_exact j ltac:(lia)) as [-> _].
+    apply IZR_le. lia.
+  - unfold AXIS_MAX. lia.
+Qed.
+
+Theorem range_axis_ok : forall ticks u,
+  zlen ticks <= AXIS_MAX + 1 ->
+  (forall i, 0 <= i < zlen ticks -> finite (tick_at ticks i)) ->
+  (forall i j, 0 <= i <= j -> j < zlen ticks -> (B2R (tick_at ticks i) <= B2R (tick_at ticks j))%R) ->
+  axis_ok (DRange ticks u).
+Proof. intros ticks u Hl Hf Hm. constructor; cbn [dim_x dim_N dim_n]; assumption. Qed.
